@@ -55,7 +55,7 @@ func c08sScenario(p c08sParams, bound int) vh.SScenario {
 		}
 		var in *c08Inst
 		if p.Start == "reached" {
-			in = &c08Inst{s: s, k: k, p: c08Params{p.FT, p.ST, p.MR, 2, 3}}
+			in = &c08Inst{s: s, k: k, p: c08Params{FT: p.FT, ST: p.ST, MR: p.MR, Interval: 2, Timeout: 3}}
 			for _, e := range p.Prefix {
 				in.Step(e)
 			}
@@ -223,7 +223,7 @@ func TestVerifC08Reach(t *testing.T) {
 	}
 	i := 0
 	for _, c := range cfgs {
-		for _, pre := range vh.ReachableH(c08Spec(c08Params{c[0], c[1], c[2], 2, 3}, depth)) {
+		for _, pre := range vh.ReachableH(c08Spec(c08Params{FT: c[0], ST: c[1], MR: c[2], Interval: 2, Timeout: 3}, depth)) {
 			for _, m := range pairs {
 				if vh.MyShard(i) {
 					vh.RunS(r, "TestVerifC08Reach", c08sScenario(c08sParams{FT: c[0], ST: c[1], MR: c[2], Start: "reached", Prefix: pre, Modes: m}, bound))
